@@ -1182,6 +1182,12 @@ fn gen_c11(rng: &mut Rng, n: u32, a: u32, s: u32) -> C11 {
     for i in 1..=n { for u in &seq { ops.push(Op::UpdStats(i, u.clone())); } }
     // anchors: initial set, or partly added later
     let mut pre = anchors.clone();
+    // some anchors are configured but never mentioned by anybody (no statement, no statistics record): they are not
+    // in the node set, yet they must keep their floor and the teleport share they stand for must not leak to others
+    // (only when nobody has statistics, so that factors stay equal)
+    if seq.is_empty() && rng.chance(1, 3) {
+        for g in 0..rng.range(1, 2) as u32 { pre.push(GHOST0 + 900 + g); }
+    }
     if a > 1 && rng.chance(1, 5) {
         let later = rng.range(1, (a - 1) as u64) as usize;
         for _ in 0..later { if let Some(x) = pre.pop() { ops.push(Op::AddPre(x)); } }
